@@ -1,5 +1,6 @@
 """Theory plug-in for yp_prolog_visitor.YPPrologVisitor (string functions: unquoteString, visitVARIABLE, ...)."""
 import ast
+import re
 
 from .core import SV, NONE, OutOfSubset, AND, OR, NOT, EQ, ITE, smt_str
 from .exec import Exc
@@ -122,28 +123,46 @@ class VisitorTheory(Theory):
 
 
 from .theory_compiler import CompilerTheory  # noqa: E402
+from .exec import Exc  # noqa: E402
 
 
 class ParseTheory(CompilerTheory):
-    """ANTLR parse-tree contexts of `predicateexpression` / `simplepredicate` / `termpredicate` as the datatypes PE / SP
-    (spec/control.smt2); accessor methods of the generated context classes (simplepredicate(), op, predicateexpression(i),
-    TRUE(), FAIL(), CUT(), termpredicate(), term()) as selectors with presence conditions; the term AST of a goal as TA."""
-    COMPS = []
+    """ANTLR parse-tree contexts as the datatypes TT/TTL/SP/PE of spec/parse.smt2; the accessor methods of the generated
+    context classes (atom(), functor(), UNOP(), term(i), termlist(), VARIABLE(), LBRACK(), simplepredicate(), op,
+    predicateexpression(i), TRUE(), ...) as recognisers/selectors with presence conditions (an absent child is None);
+    AST classes of the visitor as constructors of TA/Body; the anonymous-variable counter as state component avc."""
+    COMPS = [('avc', 'Int')]
     NO_TERM_COMPS = True
+    FUNCTIONAL_POST = True
+
+    def _sup(self, name, *a):
+        f = getattr(CompilerTheory, name, None)
+        return f(self, *a) if f else None
+
+    def loop_modified_comps(self, ex, body):
+        return {'avc'}
 
     def mk_param(self, ex, st, n, sort, sub):
-        if sort in ('PE', 'SP'):
-            return SV(sort, ex.fresh(sort, n))
-        if sort in ('TP', 'TermCtx'):
-            return SV(sort, ex.fresh('Int', n))
-        return CompilerTheory.mk_param(self, ex, st, n, sort, sub)
+        if sort in ('PE', 'SP', 'TT', 'TTL'):
+            e = ex.fresh(sort, n)
+            if sub:
+                st.assume('((_ is %s) %s)' % (sub, e))
+            return SV(sort, e)
+        if sort == 'Token':
+            return SV('Token', ex.fresh('String', n))
+        return self._sup('mk_param', ex, st, n, sort, sub)
 
     def mk_ret(self, ex, sort, e, st):
-        if sort == 'TA':
-            return SV('TA', e, {'nameatom': '(nameisatom %s)' % e})
-        return CompilerTheory.mk_ret(self, ex, sort, e, st)
+        if sort in ('TA', 'TAL'):
+            return SV(sort, e)
+        if sort == 'Str':
+            return SV('Str', e)
+        return self._sup('mk_ret', ex, sort, e, st)
 
+    # ---- attributes
     def attr_read(self, ex, base, attr, st, node):
+        if base.sort == 'CSelf' and attr == 'anonymousVariableCounter':
+            return [(st, SV('Int', st.comp['avc']))]
         if base.sort == 'PE' and attr == 'op':
             b = base.e
             return [(st, SV('OptTok', ITE('((_ is PENeg) %s)' % b, smt_str('\\+'), '(peop %s)' % b),
@@ -152,82 +171,304 @@ class ParseTheory(CompilerTheory):
             ex.oblige(st, 'safety.op_present', NOT(base.meta['none']), 'safety')
             return [(st, SV('Str', base.e))]
         if base.sort == 'TA' and attr == 'name':
+            # Functor.name is the object the functor was built from; Atom objects have .value
             ex.oblige(st, 'safety.attr.name_of_functor', '((_ is TAFun) %s)' % base.e, 'safety')
-            return [(st, SV('TAName', '(tafname %s)' % base.e, {'isatom': base.meta.get('nameatom', 'false')}))]
+            return [(st, SV('TAName', '(tafname %s)' % base.e))]
         if base.sort == 'TA' and attr == 'args':
             ex.oblige(st, 'safety.attr.args_of_functor', '((_ is TAFun) %s)' % base.e, 'safety')
             return [(st, SV('TAL', '(tafargs %s)' % base.e))]
         if base.sort == 'TAName' and attr == 'value':
-            ex.oblige(st, 'safety.attr.value_of_atom', base.meta['isatom'], 'safety')
             return [(st, SV('Str', base.e))]
-        return CompilerTheory.attr_read(self, ex, base, attr, st, node)
+        return self._sup('attr_read', ex, base, attr, st, node)
+
+    def attr_write(self, ex, base, attr, v, st, node):
+        if base.sort == 'CSelf' and attr == 'anonymousVariableCounter' and v.sort == 'Int':
+            st.comp['avc'] = v.e
+            return True
+        return self._sup('attr_write', ex, base, attr, v, st, node)
 
     def isinstance(self, ex, v, cls, st, node):
         if v.sort == 'TA' and cls in ('Atom', 'Functor'):
             return '((_ is %s) %s)' % ('TAAtom' if cls == 'Atom' else 'TAFun', v.e)
         if v.sort == 'TAName' and cls == 'Atom':
-            return v.meta['isatom']
-        return CompilerTheory.isinstance(self, ex, v, cls, st, node)
+            return 'true'      # TAFun is only ever built from an Atom (obligation safety.functor_name_is_atom)
+        return self._sup('isinstance', ex, v, cls, st, node)
 
     def truthy(self, ex, v):
-        if v.sort in ('OptTok', 'OptTP'):
+        if v.sort in ('OptTok', 'OptTP', 'OptTT', 'OptTTL', 'OptPE'):
             return NOT(v.meta['none'])
         return None
 
     def is_none(self, ex, other, st):
-        if other.sort in ('OptSP', 'OptTok', 'OptTP'):
+        if other.sort in ('OptSP', 'OptTok', 'OptTP', 'OptTT', 'OptTTL', 'OptPE'):
             return other.meta['none']
+        if other.sort in ('TA', 'TAL', 'TT', 'TTL', 'Body', 'Token'):
+            return 'false'
         return None
 
     def equal(self, ex, e, op, a, b, st):
         if a.sort == 'PEChildren' and b.sort == 'PyList' and not b.meta['items']:
             return '((_ is PESimple) %s)' % a.e
-        return CompilerTheory.equal(self, ex, e, op, a, b, st)
+        if a.sort == 'TTChildren' and b.sort == 'PyList' and not b.meta['items']:
+            t = a.e
+            return NOT(OR(*['((_ is %s) %s)' % (c, t) for c in ('TTUn', 'TTBin', 'TTParen', 'TTPairs')]))
+        return self._sup('equal', ex, e, op, a, b, st)
 
+    # ---- constructors and builtins
     def apply_name(self, ex, e, name, args, st):
-        if name == 'Functor' and len(args) == 2 and args[0].sort == 'TA' and args[1].sort == 'PyList' and not args[1].meta['items']:
-            # Functor(atom, []): the name object is the Atom passed in
+        so = [a.sort for a in args]
+        if name == 'Functor' and len(args) == 2 and args[0].sort == 'TA':
+            # the name object must be an Atom for the AST to be usable (name.value)
             ex.oblige(st, 'safety.functor_name_is_atom', '((_ is TAAtom) %s)' % args[0].e, 'safety')
-            return [(st, SV('TA', '(TAFun (taval %s) tanil)' % args[0].e, {'nameatom': 'true'}))]
-        if name == 'len' and len(args) == 1 and args[0].sort == 'TAL':
+            lst = self.coerce(ex, args[1], 'TAL', st) if args[1].sort != 'TAL' else args[1]
+            if lst is not None:
+                return [(st, SV('TA', '(TAFun (taval %s) %s)' % (args[0].e, lst.e)))]
+        if name == 'Atom' and so == ['Str']:
+            return [(st, SV('TA', '(TAAtom %s)' % args[0].e))]
+        if name == 'NumeralTerm' and so == ['Str']:
+            return [(st, SV('TA', '(TANum %s)' % args[0].e))]
+        if name == 'ListTerm' and so == ['TAL']:
+            return [(st, SV('TA', '(TAListT %s)' % args[0].e))]
+        if name == 'ListPairTerm' and so == ['TA', 'TA']:
+            return [(st, SV('TA', '(TAPair %s %s)' % (args[0].e, args[1].e)))]
+        if name == 'len' and so == ['TAL']:
             return [(st, SV('Int', '(talen %s)' % args[0].e))]
-        if name == 'Predicate' and len(args) == 1 and args[0].sort == 'TA':
-            ex.oblige(st, 'safety.predicate_of_functor', AND('((_ is TAFun) %s)' % args[0].e, args[0].meta.get('nameatom', 'false')), 'safety')
+        if name == 'Predicate' and so == ['TA']:
+            ex.oblige(st, 'safety.predicate_of_functor', '((_ is TAFun) %s)' % args[0].e, 'safety')
             return [(st, SV('Body', '(predof %s)' % args[0].e))]
-        return CompilerTheory.apply_name(self, ex, e, name, args, st)
+        return self._sup('apply_name', ex, e, name, args, st)
 
+    def binop(self, ex, e, a, b, st):
+        if isinstance(e.op, ast.Add) and a.sort == 'PyList' and b.sort == 'TAL' and all(i.sort == 'TA' for i in a.meta['items']):
+            out = b.e
+            for i in reversed(a.meta['items']):
+                out = '(tacons %s %s)' % (i.e, out)
+            return SV('TAL', out)
+        return self._sup('binop', ex, e, a, b, st)
+
+    # ---- context accessors
     def apply_method(self, ex, e, base, meth, args, st):
         b = base.e
+        is_ = lambda c, x=b: '((_ is %s) %s)' % (c, x)      # noqa: E731
         if base.sort == 'PE':
             if meth == 'simplepredicate' and not args:
-                return [(st, SV('OptSP', '(pesp %s)' % b, {'none': NOT('((_ is PESimple) %s)' % b)}))]
+                return [(st, SV('OptSP', '(pesp %s)' % b, {'none': NOT(is_('PESimple'))}))]
             if meth == 'predicateexpression' and not args:
                 return [(st, SV('PEChildren', b))]
             if meth == 'predicateexpression' and len(args) == 1 and args[0].e in ('0', '1'):
-                i = args[0].e
-                if i == '0':
-                    ex.oblige(st, 'safety.child0_present', NOT('((_ is PESimple) %s)' % b), 'safety')
-                    return [(st, SV('PE', ITE('((_ is PENeg) %s)' % b, '(pen %s)' % b, ITE('((_ is PEBin) %s)' % b, '(pel %s)' % b, '(pep %s)' % b))))]
-                ex.oblige(st, 'safety.child1_present', '((_ is PEBin) %s)' % b, 'safety')
+                if args[0].e == '0':
+                    ex.oblige(st, 'safety.child0_present', NOT(is_('PESimple')), 'safety')
+                    return [(st, SV('PE', ITE(is_('PENeg'), '(pen %s)' % b, ITE(is_('PEBin'), '(pel %s)' % b, '(pep %s)' % b))))]
+                ex.oblige(st, 'safety.child1_present', is_('PEBin'), 'safety')
                 return [(st, SV('PE', '(per %s)' % b))]
         if base.sort == 'SP' and not args:
             tok = {'TRUE': 'SPTrue', 'FAIL': 'SPFail', 'CUT': 'SPCut'}
             if meth in tok:
-                return [(st, SV('OptTok', smt_str(meth), {'none': NOT('((_ is %s) %s)' % (tok[meth], b))}))]
+                return [(st, SV('OptTok', smt_str(meth), {'none': NOT(is_(tok[meth]))}))]
             if meth == 'termpredicate':
-                return [(st, SV('OptTP', '(sptp %s)' % b, {'none': NOT('((_ is SPTerm) %s)' % b)}))]
-        if base.sort == 'TP' and meth == 'term' and not args:
-            return [(st, SV('TermCtx', b))]
-        return CompilerTheory.apply_method(self, ex, e, base, meth, args, st)
+                return [(st, SV('OptTT', '(sptt %s)' % b, {'none': NOT(is_('SPTerm'))}))]
+        if base.sort == 'TT':
+            poss = possible_ctors(st, b, TT_CTORS)
+            if len(poss) == 1:
+                # the path condition fixes the alternative: say so (implied) and select directly
+                only = next(iter(poss))
+                if is_(only) not in st.pc:
+                    st.assume(is_(only))
+
+                def sel(c, x, y, _b=b, _only=only):
+                    m = re.fullmatch(r'\(\(_ is (\w+)\) %s\)' % re.escape(_b), c)
+                    return (x if m.group(1) == _only else y) if m else core.ITE(c, x, y)
+            else:
+                sel = core.ITE
+            if not args:
+                if meth == 'term':      # termpredicate: term   (the context of a termpredicate is identified with its term)
+                    if ex.qualname.endswith('visitTermpredicate'):
+                        return [(st, SV('TT', b))]
+                    return [(st, SV('TTChildren', b))]
+                if meth == 'atom':
+                    # rule term: alternative `atom`;   rule functor: the name
+                    if ex.qualname.endswith('visitFunctor'):
+                        return [(st, SV('TT', '(ttfa %s)' % b))]
+                    return [(st, SV('OptTT', b, {'none': NOT(OR(is_('TTAtom'), is_('TTNum'), is_('TTStr')))}))]
+                if meth == 'functor':
+                    return [(st, SV('OptTT', b, {'none': NOT(is_('TTFun'))}))]
+                if meth == 'termlist':
+                    if ex.qualname.endswith('visitFunctor'):
+                        return [(st, SV('TTL', '(ttfargs %s)' % b))]
+                    lst = sel(is_('TTList'), '(ttitems %s)' % b, '(ttprest %s)' % b)
+                    return [(st, SV('OptTTL', lst, {'none': NOT(OR(is_('TTList'), AND(is_('TTPairs'), '(ttphas %s)' % b)))}))]
+                if ex.qualname.endswith('visitAtom'):
+                    toks = {'NUMERAL': ('TTNum', 'ttntext'), 'STRING': ('TTStr', 'ttstext'), 'ATOM': ('TTAtom', 'ttatext')}
+                    if meth in toks:
+                        c, sel = toks[meth]
+                        return [(st, SV('OptTok', '(%s %s)' % (sel, b), {'none': NOT(is_(c))}))]
+                if meth == 'ATOM':      # rule term: only in ATOM '/' NUMERAL
+                    return [(st, SV('OptTok', '(ttsa %s)' % b, {'none': NOT(is_('TTSlash'))}))]
+                if meth == 'NUMERAL':
+                    return [(st, SV('OptTok', '(ttsn %s)' % b, {'none': NOT(is_('TTSlash'))}))]
+                if meth == 'UNOP':
+                    return [(st, SV('OptTok', '(ttuop %s)' % b, {'none': NOT(is_('TTUn'))}))]
+                if meth == 'BINOP':
+                    return [(st, SV('OptTok', '(ttbop %s)' % b, {'none': NOT(is_('TTBin'))}))]
+                if meth == 'LBRACK':
+                    return [(st, SV('OptTok', smt_str('['), {'none': NOT(OR(is_('TTList'), is_('TTPairs')))}))]
+                if meth == 'VARIABLE':
+                    return [(st, SV('OptTok', sel(is_('TTVar'), '(ttv %s)' % b, '(ttptail %s)' % b),
+                                {'none': NOT(OR(is_('TTVar'), is_('TTPairs')))}))]
+            if meth == 'term' and len(args) == 1 and args[0].e in ('0', '1'):
+                if args[0].e == '0':
+                    ex.oblige(st, 'safety.term0_present', OR(is_('TTUn'), is_('TTBin'), is_('TTParen'), is_('TTPairs')), 'safety')
+                    return [(st, SV('TT', sel(is_('TTUn'), '(ttu1 %s)' % b, sel(is_('TTBin'), '(ttb1 %s)' % b,
+                                                                              sel(is_('TTParen'), '(ttp %s)' % b, '(ttph %s)' % b)))))]
+                ex.oblige(st, 'safety.term1_present', is_('TTBin'), 'safety')
+                return [(st, SV('TT', '(ttb2 %s)' % b))]
+        if base.sort == 'OptTok' and meth == 'getText' and not args:
+            ex.oblige(st, 'safety.token_present', NOT(base.meta['none']), 'safety')
+            return [(st, SV('Str', base.e))]
+        if base.sort == 'Token' and meth == 'getText' and not args:
+            return [(st, SV('Str', base.e))]
+        return self._sup('apply_method', ex, e, base, meth, args, st)
 
     def coerce(self, ex, a, want, st):
-        if want == 'SP' and a.sort == 'OptSP':
+        want0 = want.split(':')[0]
+        if want0 == 'SP' and a.sort == 'OptSP':
             ex.oblige(st, 'safety.simplepredicate_present', NOT(a.meta['none']), 'safety')
             return SV('SP', a.e)
-        if want == 'TP' and a.sort == 'OptTP':
-            ex.oblige(st, 'safety.termpredicate_present', NOT(a.meta['none']), 'safety')
-            return SV('TP', a.e)
-        return CompilerTheory.coerce(self, ex, a, want, st)
+        if want0 == 'TT' and a.sort == 'OptTT':
+            ex.oblige(st, 'safety.child_present', NOT(a.meta['none']), 'safety')
+            return SV('TT', a.e)
+        if want0 == 'TTL' and a.sort == 'OptTTL':
+            ex.oblige(st, 'safety.termlist_present', NOT(a.meta['none']), 'safety')
+            return SV('TTL', a.e)
+        if want0 == 'Token' and a.sort == 'OptTok':
+            ex.oblige(st, 'safety.token_present', NOT(a.meta['none']), 'safety')
+            return SV('Token', a.e)
+        if want0 == 'TAL' and a.sort == 'PyList' and all(i.sort == 'TA' for i in a.meta['items']):
+            out = 'tanil'
+            for i in reversed(a.meta['items']):
+                out = '(tacons %s %s)' % (i.e, out)
+            return SV('TAL', out)
+        return self._sup('coerce', ex, a, want, st)
+
+    # ---- [self.visitTerm(ctx.term(i)) for i in range(len(ctx.term()))]: the calls happen left to right, each on the
+    #      counter the previous one left.  With F/N the list lifts of the callee's result/advance (ghost `comprehension`),
+    #      the value is F(list, avc) and the counter advances by N(list); that F/N are those lifts is an obligation.
+    def ev_ListComp(self, ex, e, st):
+        lift = ex.c.ghost.get('comprehension')
+        g = e.generators[0] if len(e.generators) == 1 else None
+        if not lift or g is None or g.ifs or ast.unparse(e) != '[self.visitTerm(ctx.term(i)) for i in range(len(ctx.term()))]':
+            return None
+        ctx = st.env.get('ctx')
+        if ctx is None or ctx.sort != 'TTL':
+            return None
+        F, N = lift
+        c = ex.reg['yp_prolog_visitor.YPPrologVisitor.visitTerm']
+        # the callee's precondition holds for every element (consequence of the list-level precondition: by definition of
+        # ttwfl/ttsupl) and the counter stays non-negative
+        h, r, n = ex.fresh('TT', 'lift_h'), ex.fresh('TTL', 'lift_r'), ex.fresh('Int', 'lift_n')
+        lem = st.fork().tag('lift')
+        ex.oblige(lem, 'comprehension.lift.cons', AND(
+            EQ('(%s (ttcons %s %s) %s)' % (F, h, r, n), '(tacons (tast %s %s) (%s %s (+ %s (tcnt %s))))' % (h, n, F, r, n, h)),
+            EQ('(%s (ttcons %s %s))' % (N, h, r), '(+ (tcnt %s) (%s %s))' % (h, N, r)),
+            EQ('(%s ttnil %s)' % (F, n), 'tanil'), EQ('(%s ttnil)' % N, '0'),
+            '(=> (and (ttwfl (ttcons %s %s)) (ttsupl (ttcons %s %s))) (and (ttwf %s) (ttsup %s) (ttwfl %s) (ttsupl %s)))' % (h, r, h, r, h, h, r, r)),
+            'post')
+        ex.oblige(st, 'comprehension.requires', AND('(ttwfl %s)' % ctx.e, '(ttsupl %s)' % ctx.e, '(>= %s 0)' % st.comp['avc']), 'pre')
+        assert c.ensures == ['(= {result} (tast {ctx} {avc0}))', '(= {avc} (+ {avc0} (tcnt {ctx})))'], 'visitTerm contract changed: update the lift rule'
+        old = st.comp['avc']
+        st.comp['avc'] = '(+ %s (%s %s))' % (old, N, ctx.e)
+        outs = [(st, SV('TAL', '(%s %s %s)' % (F, ctx.e, old)))]
+        for cls_ in c.raises:
+            outs.append((st.fork().tag('comprehension.raises:' + cls_), Exc(cls_)))
+        return outs
+
+    def call_name_ast(self, ex, e, st):
+        r = fold_rule(ex, e, st, 'TA', 'TAL', 'tacons', 'tanil', self)
+        if r is not None:
+            return r
+        return self._sup('call_name_ast', ex, e, st)
 
     def smt_sort(self, sort):
-        return {'TP': 'Int', 'TermCtx': 'Int', 'Label': 'Int'}.get(sort)
+        return {'Label': 'Int', 'Token': 'String'}.get(sort)
+
+
+def _sexp(text):
+    toks = text.replace('(', ' ( ').replace(')', ' ) ').split()
+    pos = [0]
+
+    def rd():
+        t = toks[pos[0]]
+        pos[0] += 1
+        if t == '(':
+            out = []
+            while toks[pos[0]] != ')':
+                out.append(rd())
+            pos[0] += 1
+            return out
+        return t
+    try:
+        return rd()
+    except IndexError:
+        return None
+
+
+def possible_ctors(st, b, ctors):
+    """the constructors of the datatype value `b` compatible with the recogniser facts of the path condition (three-valued
+    evaluation of every path-condition conjunct built from (_ is C) b / and / or / not; anything else counts as unknown)"""
+    def ev(x, c):
+        if x == 'true':
+            return True
+        if x == 'false':
+            return False
+        if isinstance(x, list) and len(x) == 2 and isinstance(x[0], list) and x[0][:2] == ['_', 'is'] and x[1] == b:
+            return x[0][2] == c
+        if isinstance(x, list) and x and x[0] == 'not' and len(x) == 2:
+            v = ev(x[1], c)
+            return None if v is None else not v
+        if isinstance(x, list) and x and x[0] in ('and', 'or'):
+            vs = [ev(y, c) for y in x[1:]]
+            if x[0] == 'and':
+                return False if False in vs else (None if None in vs else True)
+            return True if True in vs else (None if None in vs else False)
+        return None
+    if not re.fullmatch(r'[A-Za-z_][\w!]*', b):
+        return set(ctors)
+    forms = [_sexp(p) for p in st.pc if b in p and ' is ' in p]
+    return {c for c in ctors if all(ev(f, c) is not False for f in forms if f is not None)}
+
+
+TT_CTORS = ('TTAtom', 'TTNum', 'TTStr', 'TTFun', 'TTSlash', 'TTVar', 'TTUn', 'TTBin', 'TTParen', 'TTList', 'TTPairs')
+
+
+def fold_rule(ex, e, st, elem, lsort, cons, nil, theory):
+    """functools.reduce(lambda x, y: BODY, reversed(l), INIT) is the right fold of l (A-EXT-REDUCE).  Against the recursive spec
+    function named by the contract (ghost fold_spec, a template over {l} and {init}): base F(nil, INIT) = INIT,
+    step BODY[x := F(t, INIT), y := h] = F(cons h t, INIT); then the value is F(l, INIT)."""
+    if not (ast.unparse(e.func) == 'functools.reduce' and len(e.args) == 3 and isinstance(e.args[0], ast.Lambda)
+            and len(e.args[0].args.args) == 2 and isinstance(e.args[1], ast.Call) and ast.unparse(e.args[1].func) == 'reversed'
+            and len(e.args[1].args) == 1 and isinstance(e.args[1].args[0], ast.Name) and ex.c.ghost.get('fold_spec')):
+        return None
+    spec = ex.c.ghost['fold_spec']
+    lv = st.env.get(e.args[1].args[0].id)
+    if lv is not None and lv.sort == 'PyList':
+        lv = theory.coerce(ex, lv, lsort, st)
+    if lv is None or lv.sort != lsort:
+        return None
+    inits = ex.eval(e.args[2], st)
+    if len(inits) != 1 or isinstance(inits[0][1], Exc) or inits[0][1].sort != elem:
+        return None
+    init = inits[0][1].e
+    F = lambda l: spec.replace('{l}', l).replace('{init}', init)      # noqa: E731
+    ex.oblige(st.fork().tag('fold.base'), 'fold.base', EQ(F(nil), init), 'post')
+    h, t = ex.fresh(elem, 'fold_h'), ex.fresh(lsort, 'fold_t')
+    xn, yn = [a.arg for a in e.args[0].args.args]
+    stb = st.fork().tag('fold.step')
+    stb.env = dict(stb.env)
+    stb.env[xn] = SV(elem, F(t))
+    stb.env[yn] = SV(elem, h)
+    for st3, v in ex.eval(e.args[0].body, stb):
+        if isinstance(v, Exc) or v.sort != elem:
+            ex.oblige(st3, 'fold.step', 'false', 'post')
+        else:
+            ex.oblige(st3, 'fold.step', EQ(v.e, F('(%s %s %s)' % (cons, h, t))), 'post')
+    return [(st, SV(elem, F(lv.e)))]
